@@ -52,6 +52,15 @@ def extra_programs():
         [If(B('&&', Call('f', [V('va')]), Call('f', [V('vb')])), A(V('vc'), C(1)), A(V('vc'), C(2)))])
     add('inl/y_index', [F('f', 'u8', [], Block([ret(Index('arr', V('Y')))]))], [A(V('Y'), C(1)), A(V('va'), Call('f', [])), inc('Y'), A(V('vb'), Call('f', []))])
     add('inl/short_ret', [F('f', 'u16', [('u16', 'x')], Block([If(B('==', V('x'), C(0)), ret(C(0x1234))), ret(B('+', V('x'), C(1)))]))], [A(V('wa'), Call('f', [V('wb')])), A(V('wc'), Call('f', [V('wa')]))])
+    # a conditional branch of the caller that spans inlined bodies containing jumps, with the distance swept across the
+    # short-branch limit: the copied lines must keep their sizes for the long-branch repair (and the call must still behave the same)
+    nops = lambda n: [Raw('asm', 'NOP', 1) for _ in range(n)]
+    for k in range(30, 126):
+        g = lambda: F('g', None, [], Block([If(V('vd'), Block([A(V('vd'), C(0)), Return()])), If(B('<', V('sb'), C(3)), inc('sb'), A(V('sb'), C(0)))]))
+        add('inl/window/if/%d' % k, [g()], [If(B('==', V('va'), V('vb')), Block([A(V('vc'), C(1))] + nops(k) + [ExprS(Call('g', [])), ExprS(Call('g', []))])), A(V('X'), C(7))], extra=['vd', 'sb'])
+        if k % 2 == 0:
+            add('inl/window/loop/%d' % k, [g()], [A(V('vc'), C(2)), DoWhile(Block(nops(k) + [ExprS(Call('g', [])), dec('vc')]), V('vc'))], extra=['vd', 'sb'])
+            add('inl/window/else/%d' % k, [g()], [If(B('<', V('va'), V('vb')), Block(nops(k) + [ExprS(Call('g', []))]), Block([ExprS(Call('g', []))] + nops(k))), A(V('X'), C(7))], extra=['vd', 'sb'])
     return P
 
 
